@@ -26,6 +26,50 @@ CHUNK_TIMEOUT = 900
 
 _ENGINE = None
 
+# ---- process-environment slices --------------------------------------------------------------
+# Part of every batch runs in child interpreters started under another *process-level*
+# configuration - one that cannot be changed inside a forked run: `python -O` (asserts and
+# `__debug__` blocks are compiled away) and the environment switches the package itself reads
+# (names found by scanning its source for os.environ / os.getenv look-ups; values from the seed).
+# A finding made there carries `process_env` in its replay file, and `--replay` re-executes
+# itself under that configuration.
+PROCESS_ENV = json.loads(os.environ.get("VERIF_PROCESS_ENV", "null"))
+_NOT_SWITCHES = {"HOME", "PATH", "USER", "TMPDIR", "TEMP", "TMP", "PWD", "SHELL", "LANG"}
+
+
+def discover_switches(src):
+    names = set()
+    pat = re.compile(r"""(?:environ(?:\.get)?|getenv)\s*[\[(]\s*["']([A-Za-z_][A-Za-z0-9_]*)["']""")
+    for f in glob.glob(os.path.join(src, "func_adl", "**", "*.py"), recursive=True):
+        try:
+            names.update(pat.findall(open(f, encoding="utf-8").read()))
+        except OSError:
+            pass
+    return sorted(n for n in names if n not in _NOT_SWITCHES and not n.startswith(("PYTHON", "VERIF")))
+
+
+def env_slices(seed0, prop):
+    import random
+
+    out = [{"label": "optimize", "flags": ["-O"], "env": {}}]
+    sw = discover_switches(func_adl_src())
+    if sw:
+        rng = random.Random(mix(seed0, prop, "switches"))
+        out.append({"label": "switches", "flags": [],
+                    "env": {n: rng.choice(["1", "3", "64"]) for n in sw}})
+    return out
+
+
+def _process_matches(pe):
+    if ("-O" in pe.get("flags", [])) != bool(sys.flags.optimize):
+        return False
+    return all(os.environ.get(k) == v for k, v in pe.get("env", {}).items())
+
+
+def interpreter_flags():
+    "Interpreter options children of this process must be started with, to be like it."
+    return ["-O"] if sys.flags.optimize == 1 else []
+
 
 def _init_worker(engine_name):
     global _ENGINE
@@ -173,6 +217,11 @@ def match_known(known, prop, viol, sig):
 def replay_file(engine, prop, path):
     "--replay: re-execute a recorded case; exit 1 with a VIOLATION line iff it still violates."
     case = json.load(open(path))
+    pe = case.get("process_env")
+    if pe and not _process_matches(pe):
+        env = dict(os.environ, **pe.get("env", {}), VERIF_PROCESS_ENV=json.dumps(pe))
+        os.execve(sys.executable, [sys.executable] + pe.get("flags", []) + [
+            os.path.abspath(sys.argv[0])] + sys.argv[1:], env)
     r = engine.execute(case)
     v = r["violation"]
     rec = case.get("violation") or {}
@@ -195,6 +244,8 @@ def main(prop, engine, argv, quick_runs=4000, thorough_budget=900, selftest_seed
     ap.add_argument("--runs", type=int)
     ap.add_argument("--budget", type=float)
     ap.add_argument("--no-evidence", action="store_true")
+    ap.add_argument("--slice")  # internal: this process is a process-environment slice
+    ap.add_argument("--no-slices", action="store_true")
     a = ap.parse_args(argv)
     tier = a.tier if a.tier in ("quick", "thorough") else "quick"
     if a.replay:
@@ -341,26 +392,38 @@ def _main(prop, engine, tier, seed0, runs, budget, selftest_seeds, t0, a, techni
     known = load_known()
     pool = _pool(engine)
     notes = []
+    in_slice = a.slice is not None
     try:
-        st = selftest(prop, engine, tier, seed0, selftest_seeds if tier == "quick" else 200, pool)
-        # regression corpus: replay files of repaired defects must stay clean
-        corpus = sorted(glob.glob(os.path.join(ROOT, "replays", "fixed", prop, "*.json")))
-        regress = []
-        for path in corpus:
-            case = json.load(open(path))
-            r = pool.submit(_exec_job, case).result(timeout=CHUNK_TIMEOUT + 30)
-            if r["violation"] is not None:
-                regress.append((path, r["violation"]))
-        agg_ff, agg_fi = Agg(), Agg()
-        if tier == "quick":
-            n_ff = int(runs * 0.3)
-            _batch(prop, engine, tier, pool, _seed_stream(seed0, prop, "ff"), True, agg_ff, None, n_ff)
-            _batch(prop, engine, tier, pool, _seed_stream(seed0, prop, "fi"), False, agg_fi, None, runs - n_ff)
+        if in_slice:
+            # a process-environment slice: only the fault-injecting search, under this
+            # interpreter's configuration; determinism protocol and corpus are the parent's job
+            st = {"seeds": 0, "twice_in_other_process": 0, "other_hashseed_fresh_interpreter": 0,
+                  "mismatching_seeds": []}
+            corpus, regress = [], []
+            agg_ff, agg_fi = Agg(), Agg()
+            dl = (t0 + budget) if (tier == "thorough" and budget) else None
+            _batch(prop, engine, tier, pool, _seed_stream(seed0, prop, "slice-" + a.slice), False,
+                   agg_fi, dl, runs)
         else:
-            d1 = time.time() + budget * 0.25
-            _batch(prop, engine, tier, pool, _seed_stream(seed0, prop, "ff"), True, agg_ff, d1, runs)
-            d2 = t0 + budget * 0.9
-            _batch(prop, engine, tier, pool, _seed_stream(seed0, prop, "fi"), False, agg_fi, d2, runs)
+            st = selftest(prop, engine, tier, seed0, selftest_seeds if tier == "quick" else 200, pool)
+            # regression corpus: replay files of repaired defects must stay clean
+            corpus = sorted(glob.glob(os.path.join(ROOT, "replays", "fixed", prop, "*.json")))
+            regress = []
+            for path in corpus:
+                case = json.load(open(path))
+                r = pool.submit(_exec_job, case).result(timeout=CHUNK_TIMEOUT + 30)
+                if r["violation"] is not None:
+                    regress.append((path, r["violation"]))
+            agg_ff, agg_fi = Agg(), Agg()
+            if tier == "quick":
+                n_ff = int(runs * 0.3)
+                _batch(prop, engine, tier, pool, _seed_stream(seed0, prop, "ff"), True, agg_ff, None, n_ff)
+                _batch(prop, engine, tier, pool, _seed_stream(seed0, prop, "fi"), False, agg_fi, None, runs - n_ff)
+            else:
+                d1 = time.time() + budget * 0.25
+                _batch(prop, engine, tier, pool, _seed_stream(seed0, prop, "ff"), True, agg_ff, d1, runs)
+                d2 = t0 + budget * 0.8
+                _batch(prop, engine, tier, pool, _seed_stream(seed0, prop, "fi"), False, agg_fi, d2, runs)
         wall_search = time.time() - t0
 
         # ---- findings ------------------------------------------------------------------------
@@ -396,14 +459,17 @@ def _main(prop, engine, tier, seed0, runs, budget, selftest_seeds, t0, a, techni
         small["signature"] = sig
         small["minimised_from_ops"] = len(case["ops"])
         small["shrink_executions"] = n_exec
+        if PROCESS_ENV:
+            small["process_env"] = PROCESS_ENV
         os.makedirs(out_dir, exist_ok=True)
-        path = os.path.join(out_dir, f"{cls.replace('/', '_')}-{seed}.json")
+        path = os.path.join(out_dir, f"{cls.replace('/', '_')}-{seed}"
+                            + (f"-{a.slice}" if in_slice else "") + ".json")
         with open(path, "w") as f:
             json.dump(small, f, indent=1, default=repr)
         # replay in a fresh interpreter: must fail the same way
         script = os.path.join(ROOT, "checks", prop.lower() + ".py")
-        p = subprocess.run([sys.executable, script, "--replay", path], capture_output=True,
-                           text=True, timeout=CHUNK_TIMEOUT)
+        p = subprocess.run([sys.executable] + interpreter_flags() + [script, "--replay", path],
+                           capture_output=True, text=True, timeout=CHUNK_TIMEOUT)
         exact = p.returncode == 1 and f"class={sv['class']} digest={sv['digest']} same_as_recorded=True" in p.stdout
         m = re.search(r"^VIOLATION property=\S+ replay=\S+ class=(\S+)", p.stdout, re.M)
         same_family = p.returncode == 1 and m is not None and shrink.family(m.group(1)) == cls
@@ -432,6 +498,46 @@ def _main(prop, engine, tier, seed0, runs, budget, selftest_seeds, t0, a, techni
         found.append({"class": v["class"], "runs": 1, "known": False, "replay": path,
                       "regression": True})
         exit_code = 1
+
+    # ---- process-environment slices -------------------------------------------------------------
+    slices = {}
+    if not in_slice and not a.no_slices and not os.environ.get("VERIF_NO_SLICES"):
+        script = os.path.join(ROOT, "checks", prop.lower() + ".py")
+        for sl in env_slices(seed0, prop):
+            n = max(getattr(engine, "SLICE_MIN_RUNS", 200), runs // 8) if tier == "quick" else 10 ** 9
+            cmd = [sys.executable] + sl["flags"] + [script, "--tier", tier, "--slice", sl["label"],
+                                                   "--runs", str(n), "--no-evidence"]
+            if tier == "thorough":
+                cmd += ["--budget", str(max(30.0, budget * 0.08))]
+            env = dict(os.environ, **sl["env"], VERIF_PROCESS_ENV=json.dumps(sl))
+            try:
+                p = subprocess.run(cmd, env=env, capture_output=True, text=True,
+                                   timeout=(budget if tier == "thorough" else 0) + 1500)
+            except subprocess.TimeoutExpired:
+                print(f"HARNESS-ERROR process-environment slice {sl['label']} timed out")
+                exit_code = exit_code or 2
+                continue
+            lines = p.stdout.splitlines()
+            for i, line in enumerate(lines):
+                if line.startswith("VIOLATION") or line.startswith("KNOWN-FINDING"):
+                    print(line + (f"  [process environment: {sl['label']}]" if line.startswith("VIOLATION") else ""))
+                    for extra_line in lines[i + 1:i + 3]:
+                        if extra_line.startswith("  "):
+                            print(extra_line)
+                    if line.startswith("VIOLATION"):
+                        m = re.search(r"replay=(\S+)", line)
+                        found.append({"class": "see replay", "runs": None, "known": False,
+                                      "replay": m.group(1) if m else None,
+                                      "process_env": sl["label"]})
+                if line.startswith("SLICE-STATS "):
+                    slices[sl["label"]] = json.loads(line[len("SLICE-STATS "):])
+                    slices[sl["label"]]["configuration"] = {"flags": sl["flags"], "env": sl["env"]}
+            if p.returncode == 1 and any(l.startswith("VIOLATION") for l in lines):
+                exit_code = 1
+            elif p.returncode != 0:
+                print(f"HARNESS-ERROR process-environment slice {sl['label']} exited {p.returncode}: "
+                      f"{(p.stdout + p.stderr)[-600:]}")
+                exit_code = exit_code or 2
 
     # ---- evidence -----------------------------------------------------------------------------
     wall = time.time() - t0
@@ -475,6 +581,7 @@ def _main(prop, engine, tier, seed0, runs, budget, selftest_seeds, t0, a, techni
             "components_real": engine.COMPONENTS_REAL,
             "components_stub": engine.COMPONENTS_STUB,
             "findings": found,
+            "process_environment_slices": slices,
             "tree": func_adl_src(),
             "extra": {**agg_ff.extra, **{k: agg_ff.extra.get(k, 0) + v for k, v in agg_fi.extra.items()}},
         },
@@ -501,10 +608,15 @@ def _main(prop, engine, tier, seed0, runs, budget, selftest_seeds, t0, a, techni
                   f"{died[0][0]}: ...{died[0][1][-400:]}")
             exit_code = 2
     stuck = [p for p in engine.REQUIRED_PROBES.get(prop, []) if not stats.get(p)]
-    if stuck and total >= 1000:
+    if stuck and total >= 1000 and not in_slice:
         print(f"HARNESS-ERROR probes stuck at zero: {stuck}")
         exit_code = exit_code or 2
-    if not a.no_evidence and func_adl_src() == "/repo":
+    if in_slice:
+        print("SLICE-STATS " + json.dumps({
+            "runs": total, "distinct_nontrivial": len(fps), "faults_fired": faults,
+            "ops_executed": agg_fi.ops, "wall_s": round(wall, 1),
+            "violations": ev["violations"], "runs_died": len(agg_fi.died)}))
+    if not a.no_evidence and not in_slice and func_adl_src() == "/repo":
         os.makedirs(os.path.join(ROOT, "evidence"), exist_ok=True)
         with open(os.path.join(ROOT, "evidence", f"{prop}.json"), "w") as f:
             json.dump(ev, f, indent=1, default=repr)
